@@ -14,6 +14,8 @@ for d in sorted(glob.glob('/verif/seeded/*/')):
     first_missed = any('MISSED' in c for c in cb)
     missed += first_missed
     mechs = '; '.join(re.sub(r'\s+', ' ', c.split(' (')[0]).replace('|', '/') for c in cb)
+    if str(m.get('status', '')).startswith('neutralised'):
+        mechs += ' -- ' + m['status'].split(':')[0]
     rows.append('| %s | %s | %s | %s | %s |' % (name, files, summ, mechs, 'yes' if first_missed else 'no'))
 tab = ['| id | file | change | caught by (violation mechanism reported) | missed by the first version of the check |', '|---|---|---|---|---|'] + rows
 tab.append('')
